@@ -57,14 +57,15 @@ def same_prefix(ctx, rule):
     if not ctx.check(len(pfx) == 1, rule, fn, "prefix", "one common-prefix length"):
         return
     d = [q.value_shape(b, pfx[0], roles)]
-    ctx.check(d == ["Option::map_or(utils::find_common_prefix_of_sorted_vec(var:Vec<Cow<[&str]>>),0,fn:slice::len)"], rule, fn, "prefix:def",
+    ctx.check(d in (["Option::map_or(utils::find_common_prefix_of_sorted_vec(var:Vec<Cow<[&str]>>),0,fn:slice::len)"],
+                    ["Option::map_or(utils::find_common_prefix_of_sorted_vec(var:[Cow<[&str]>; 2]),0,fn:slice::len)"]), rule, fn, "prefix:def",  # the two lists in a Vec or in a 2-array
               "the prefix length is the length of the common prefix found by the helper (0 when there is none), with no arithmetic on it", detail=str(d))
     r = dict(roles)
     r[pfx[0]] = "prefix"
     takes = [q.shape(b.expr_of_call(t), r) for bi, t in b.calls() if q.nice(t.get("callee")) in ("Iterator::take", "vec::from_elem")]
     ctx.check(len(takes) == 1 and (q.wild("Iterator::take(repeat::repeat(*),Sub(Vec::len(base_path),prefix))", takes[0]) or q.wild("vec::from_elem(*,Sub(Vec::len(base_path),prefix))", takes[0])), rule, fn, "climb",
               "one '..' per base-directory component below the common prefix", detail=str(takes))
-    tails = [q.shape(b.expr_of_call(t), r) for bi, t in q.calls_to(b, "Index::index") if "RangeFull" not in q.shape(b.expr_of_call(t), r) and not q.shape(b.expr_of_call(t), r).startswith("array(")]
+    tails = [q.shape(b.expr_of_call(t), r) for bi, t in q.calls_to(b, "Index::index") if "RangeFull" not in q.shape(b.expr_of_call(t), r) and not q.shape(b.expr_of_call(t), r).startswith("array(") and not q.shape(b.expr_of_call(t), r).startswith("var:[Cow<")]
     ctx.check(tails == ["target_path[RangeFrom{start:prefix}]"], rule, fn, "tail", "followed by the target's components after that same prefix", detail=str(tails))
     ext = [q.shape(b.expr_of_call(t), r) for bi, t in q.calls_to(b, "Vec::<T, A>::extend_from_slice")]
     ctx.check(len(ext) == 1 and ext[0].endswith(",target_path[RangeFrom{start:prefix}])"), rule, fn, "append", "the tail is appended to the climbs")
